@@ -247,7 +247,25 @@ def c08(cx):
                 what="Recovered at every quiescent point, RetransmitIdentical for all datagrams of a timeslot")
 
 
-PLANS = {"C01": c01, "C02": c02, "C03": c03, "C04": c04, "C06": c06, "C07": c07, "C08": c08, "C09": c09, "C10": c10, "C11": c11, "C16": c16, "C17": c17, "C18": c18, "C19": c19, "C20": c20}
+def c12(cx):
+    cx.assumptions += ["handler panics are read from net/http's own log line (http: panic serving); a panic in another goroutine kills the driver process and is reported from its stack",
+                       "'bounded time' for shutdown is judged with a 15 s deadline on Close() (test build: sync connections time out after 2.5 s)",
+                       "geo-stats needs the network: offline only its validation and clean failure are observable"]
+    q = cx.tier == QUICK
+    cx.mc("MC_Accept", "MC_Accept.cfg", {"Defects": "{}", "MaxNow": 12 if q else 16, "MaxReports": 1 if q else 2},
+          note="IndexInBounds asserted before every array access of report intake at every (now, offset) incl. lagging rotation and start-up catch-up")
+    cx.mc("Shutdown", "Shutdown.cfg", {"ShDefects": "{}"}, workers=4,
+          note="liveness closing ~> closed with 3 connections in every state (idle, half sent, answered, disconnected), fairness on server steps only")
+    r = cx.drv_ok("accept", crash_violation=True)
+    if not r.get("crashed"):
+        cx.validate("Trace_Server", "Trace_C12.cfg", r["trace"], what="datagram menu at 7 clock/offset configurations incl. start-up catch-up (no panic, index in bounds)")
+    r = cx.drv_ok("robust", crash_violation=True)
+    if not r.get("crashed"):
+        cx.validate("Trace_Server", "Trace_C12.cfg", r["trace"],
+                    what="every endpoint x 7 methods x request classes with liveness probe and panic log; unreachable peers; idle / half-sent connections at shutdown")
+
+
+PLANS = {"C01": c01, "C02": c02, "C03": c03, "C04": c04, "C06": c06, "C07": c07, "C08": c08, "C09": c09, "C10": c10, "C11": c11, "C12": c12, "C16": c16, "C17": c17, "C18": c18, "C19": c19, "C20": c20}
 
 
 def replay(cx, path):
